@@ -958,7 +958,10 @@ fn build_item(d: &mut Dice) -> (Item, Vec<String>, Vec<String>) {
         }
     }
     let no_trait_needed = matches!(cls, "Constructor" | "Into" | "From" | "Accessors" | "TryInto" | "Debug");
-    if no_trait_needed && d.chance(12) {
+    // (not next to `#[from(i64)]`/`forward`, which require `From<..>` of the field types)
+    let converts = item.cont_attrs.iter().any(|a| a.contains("(i64)") || a.contains("forward"))
+        || matches!(&item.body, ItemBody::Enum(vs) if vs.iter().any(|v| v.attrs.iter().any(|a| a.contains("forward"))));
+    if no_trait_needed && !converts && d.chance(12) {
         let mut done = false;
         match &mut item.body {
             ItemBody::Tuple(fs) | ItemBody::Named(fs) if !fs.is_empty() => {
